@@ -3,7 +3,7 @@
 import json, subprocess, sys
 
 HOOK_COMMITS = ["f2c46aac", "b1a8fb5b", "bbcc6d5a"]
-FIX_COMMITS = ["3d29a15d", "ccb20ab7", "6a4c8968", "8f04a981"]  # + the run_block_generator SIMPLE_GENERATOR fix, see known_findings.json
+FIX_COMMITS = ["3d29a15d", "ccb20ab7", "6a4c8968", "8f04a981", "afa8cd74"]
 
 # id -> (engine, level category, technique, level text, level note, design ref)
 CHECKS = {
@@ -62,6 +62,11 @@ CHECKS = {
          "Every program of the stated families (quoted spend lists: 2 puzzle kinds x ~108 condition letters, 8 failing puzzles, two-spend/double-spend/empty lists, 15 spend-tuple defects x terminators x output extension; 11 procedural templates incl. data read from block references 1 and 2; each plain and back-reference compressed) x 4 block reference lists x all 32 subsets of {MEMPOOL_MODE, COST_CONDITIONS, SIMPLE_GENERATOR, LIMIT_SPENDS, INTERNED_GENERATOR} x limits {max block, c2, c2-1, c1, c1-1}, plus every proper prefix and every single-byte substitution by {00,01,7f,80,fe,ff} of every base program <=200 bytes (bound 2 on tiny programs) is run through run_block_generator and run_block_generator2: same verdict, identical canonical summary and condition cost, native cost <= legacy cost; a legacy-only rejection is accepted only for cost / allocator / stack-limit errors. 1.4M runs quick.",
          "trusts: nothing beyond the comparison (both sides are the real code); known finding: under INTERNED_GENERATOR the size term makes the native path dearer (recorded, all other agreement still checked with the size term removed)",
          "DESIGN.md#c07"),
+ "C08": ("E", "exploration",
+         "bounded-exhaustive differential enumeration of spend bundles through the mempool path and four block-generator constructions",
+         "Every bundle of the stated alphabet (one spend x 23 amounts covering every encoding length class x 4 puzzle kinds x <=1 of ~108 interaction letters, a wrong-declared-hash letter per amount, every ordered pair of letters on the identity puzzle (quick: one third), two spends sharing the puzzle reveal with <=1 letter each, an ephemeral chain) under the 8 combinations of MEMPOOL_MODE, COST_CONDITIONS, INTERNED_GENERATOR is run through run_spendbundle and through run_block_generator2 on solution_generator, solution_generator_backrefs, BlockBuilder and InternedBlockBuilder output: same verdict, same conditions (mempool-only flags masked), equal condition cost, execution cost + 20, plain-generator cost - direct cost = 20 + 2*cost_per_byte (20 under INTERNED_GENERATOR), solution_generator bytes = harness rendering and calculate_generator_length = actual length.",
+         "trusts: harness generator rendering (mc::genr) and serialiser; puzzle reveals are the canonical plain serialisation (the property's precondition)",
+         "DESIGN.md#c08"),
 }
 
 PENDING_REASON = "check not built yet in this round (planned: see DESIGN.md section for this property); not claimed until it runs"
